@@ -237,7 +237,7 @@ def run(ctx: core.Ctx):
     from .. import b2check
     b2check.run_b2(ctx, wire_jobs, ["C03w"], label="end-to-end reads on a real connection", accept=False)
     from .. import b2check as _b2c, gen as _gen
-    _b2c.run_b2(ctx, lambda rng_, th: [(_gen.subunit_late(rng_, core.tables()), rng_.randrange(10 ** 9), 0) for _ in range(12000 if th else 120)], ["C03late"],
+    _b2c.run_b2(ctx, lambda rng_, th: [(_gen.subunit_late(rng_, core.tables()), rng_.randrange(10 ** 9), 0) for _ in range(4000 if th else 120)], ["C03late"],
                 label="subunit objects constructed on a live connection while lines are being delivered (bytecode-level switches in the registration and the fan-out); later reports must be readable", accept=False)
     # two objects of the same class on two connections (class-level / module-level state shows here)
     from .. import twin as _twin
